@@ -218,7 +218,7 @@ type Model struct {
 	// a packet was admitted under a new name since the capacity was last changed: from then
 	// on at most CsCap packets may be cached
 	newNameSinceCap bool
-	tainted         string // non-empty: an ambiguous situation was touched; nothing is judged any more
+	tainted         string       // non-empty: an ambiguous situation was touched; nothing is judged any more
 	gone            map[int]bool // faces that were removed
 
 	// statistics for the non-triviality rules
